@@ -95,10 +95,12 @@ def child_env(env, deps):
 def run_point(pt):
     env, pre, deps, poseidon = pt[:4]
     ipy = len(pt) > 4 and pt[4]
+    late = pt[5] if len(pt) > 5 else None
     d = tempfile.mkdtemp(prefix="pv-c19-")
     try:
         e, real_fb = child_env(env, deps)
-        r = subprocess.run([common.PY, CHILD, json.dumps({"preimport": list(pre), "poseidon": poseidon, "ipython": ipy})], cwd=d, env=e,
+        r = subprocess.run([common.PY, CHILD, json.dumps({"preimport": list(pre), "poseidon": poseidon, "ipython": ipy,
+                                                          "late_env": ([late[0], None if late[1] == UNSET else late[1]] if late else None)})], cwd=d, env=e,
                            capture_output=True, text=True, start_new_session=True, timeout=120)
         rep = None
         for ln in r.stdout.splitlines():
@@ -120,10 +122,15 @@ def judge(res):
         return [({"klass": "child-timeout"}, "timeout")]
     if res.get("real_fb") and not deps[0]:
         return []       # a real flatbuffers is installed: the "unavailable" configuration cannot be produced
+    late = res["pt"][5] if len(res["pt"]) > 5 else None
+    if late:
+        env = late[1]           # what the environment says when pysnark.runtime is imported
     ref = reference(env, pre, deps, ipy)
     rep = res["report"]
     base = {"env": "known" if env in NAME2MOD else ("unset" if env == UNSET else "unknown"),
             "pre": "+".join(MOD2NAME[m] for m in pre) or "none"}
+    if late:
+        base["late_env"] = True
     if ipy:
         base["interactive"] = True
     if rep is None:
@@ -193,6 +200,13 @@ def points(thorough):
         for pre in [()] + [(m,) for m in mods]:
             for deps in ((True, True, True), (False, True, False)):
                 pts.append((env, pre, deps, False, True))
+    # PYSNARK_BACKEND set / changed / removed by the program itself AFTER a helper module of the package was imported
+    # and before pysnark.runtime is: the value at the time of the runtime import counts
+    for first in (UNSET, "snarkjs", "bogus"):
+        for helper in ("pysnark.gmpy", "pysnark"):
+            for value in ("nobackend", "zkinterface", "snarkjs", UNSET, "bogus2"):
+                if value != first:
+                    pts.append((first, (), (True, True, False), False, False, (helper, value)))
     return pts
 
 
@@ -207,8 +221,10 @@ def run(ctx):
         outcomes.add((rep.get("backend_name"), rep.get("module"), res.get("status")))
         for sig, text in judge(res):
             env, pre, deps = res["pt"][:3]
-            ctx.violation(sig, {"pt": [env, list(pre), list(deps), False] + list(res["pt"][4:])},
-                          "PYSNARK_BACKEND=%s pre-imported=%s flatbuffers=%s qaptools=%s libsnark=%s: %s" % (env, list(pre), deps[0], deps[1], deps[2], text))
+            late = res["pt"][5] if len(res["pt"]) > 5 else None
+            ctx.violation(sig, {"pt": [env, list(pre), list(deps), False] + [list(x) if isinstance(x, tuple) else x for x in res["pt"][4:]]},
+                          "PYSNARK_BACKEND=%s%s pre-imported=%s flatbuffers=%s qaptools=%s libsnark=%s: %s"
+                          % (env, (" then set to %s by the program after importing %s" % (late[1], late[0])) if late else "", list(pre), deps[0], deps[1], deps[2], text))
     from .. import e1
     e1.dedupe_violations(ctx)
     ctx.cov["states"] = len(outcomes)
@@ -226,6 +242,6 @@ def run(ctx):
 
 def replay(case):
     env, pre, deps, pos = case["pt"][:4]
-    res = run_point((env, tuple(pre), tuple(deps), pos) + tuple(case["pt"][4:]))
+    res = run_point((env, tuple(pre), tuple(deps), pos) + tuple(tuple(x) if isinstance(x, list) else x for x in case["pt"][4:]))
     return {"point": case["pt"], "report": res.get("report"), "stdout": res.get("stdout"),
             "violations": [{"sig": s, "what": t} for s, t in judge(res)]}
